@@ -21,7 +21,11 @@ def blank(task):
             "functions": {}, "patched": [], "extra": {"cells": 0, "law_identities": 0}}
 
 
-def run_law(task, closed_form, input_constraints, max_cells=400, outcome_key=None):
+class Excluded(Exception):
+    """closed form declines this cell (documented fallback outside the stated law)"""
+
+
+def run_law(task, closed_form, input_constraints, max_cells=400, outcome_key=None, cell_hook=None, checker=None):
     """closed_form(ctx_like_vars, outcome_key) -> term ; input_constraints(vars) -> [z3 conds]"""
     t0 = time.time()
     res = blank(task)
@@ -121,12 +125,25 @@ def run_law(task, closed_form, input_constraints, max_cells=400, outcome_key=Non
             continue
         if law is None:
             continue
+        viol_before = res["violation_count"]
         sc = z3.SolverFor("QF_NRA")
         sc.set("timeout", 30000)
         sc.add(base)
         sc.add(cell)
-        want = closed_form(cvars, outcomes, params, canary)
-        checks = [(k, law.get(k, z3.RealVal(0)), want.get(k, z3.RealVal(0))) for k in sorted(set(law) | set(want))]
+        if cell_hook is not None:
+            cell_hook["solver"] = sc
+        try:
+            want = closed_form(cvars, outcomes, params, canary) if checker is None else {}
+        except Excluded:
+            res["extra"]["excluded_cells"] = res["extra"].get("excluded_cells", 0) + 1
+            continue
+        finally:
+            if cell_hook is not None:
+                cell_hook["solver"] = None
+        if checker is not None:
+            checks = checker(law, outcomes, cvars, params, canary, sc)
+        else:
+            checks = [(k, law.get(k, z3.RealVal(0)), want.get(k, z3.RealVal(0))) for k in sorted(set(law) | set(want))]
         checks.append(("<total>", sum(law.values(), z3.RealVal(0)), z3.RealVal(1)))
         for k, got, exp in checks:
             q = nz.neq(lift(got), lift(exp))
@@ -144,11 +161,13 @@ def run_law(task, closed_form, input_constraints, max_cells=400, outcome_key=Non
                 if len(res["violations"]) < 3:
                     res["violations"].append({"label": "law:" + task.get("law_label", "distribution") + (":total" if k == "<total>" else ""),
                                               "detail": f"outcome {k}: path-probability sum differs from the closed form", "model": core.model_to_dict(mdl, cvars),
-                                              "script": [], "path": 0, "outcome": k, "harness": "laws.replay",
-                                              "params": {"inner": hname, "inner_params": params, "closed_form": task["closed_form"]}})
+                                              "script": [], "path": 0, "outcome": k, "harness": task.get("replay_harness", "laws.replay"),
+                                              "params": (dict(params) if task.get("replay_harness") else
+                                                         {"inner": hname, "inner_params": params, "closed_form": task["closed_form"]})})
         # cross-validate the engine on this cell: enumerate the real code's random outcomes concretely at a
         # model of the cell and compare the enumerated law with the closed form
-        if res["xval"] < task.get("xval_cells", 2) and law and not canary:
+        cell_clean = res["violation_count"] == viol_before
+        if res["xval"] < task.get("xval_cells", 2) and law and not canary and cell_clean and checker is None:
             try:
                 if sc.check() == z3.sat:
                     mdl = core.model_to_dict(sc.model(), cvars)
@@ -250,3 +269,87 @@ def replay(ctx):
     if abs(tot - 1) > 1e-9:
         raise core.ConcViolation("law:total", f"probabilities sum to {tot}")
     return {"kind": "law-ok", "outcomes": len(law)}
+
+
+# ---------------------------------------------------------------------------
+# building blocks for law checks that need several harness runs per cell (Markov kernels)
+# ---------------------------------------------------------------------------
+def collect_atoms(res, hname, params):
+    atoms, vars_ = {}, {}
+
+    def law_pre(ctx):
+        ctx.law_mode = True
+
+    for ctx, ex, outcome, status in engine.explore_raw(hname, params, pre=law_pre):
+        res["paths"] += 1
+        res["queries"] += ex.queries
+        res["solver_s"] += ex.solver_time
+        res["decisions"] += len(ex.script)
+        vars_.update(ctx.vars)
+        if status != "ok":
+            (res["harness_errors"] if status.startswith("harness") else res["inconclusive"]).append(status)
+            continue
+        for c in ex.log:
+            atoms[c.get_id()] = c
+    return atoms, vars_
+
+
+def enumerate_cells(res, atoms, base, max_cells=400):
+    sf = z3.SolverFor("QF_NRA")
+    sf.set("timeout", 2000)
+    sf.add(base)
+    kept = []
+    for a in atoms:
+        r1, r2 = sf.check(a), sf.check(z3.Not(a))
+        res["queries"] += 2
+        if not (r1 == z3.unsat or r2 == z3.unsat):
+            kept.append(a)
+    s = z3.SolverFor("QF_NRA")
+    s.set("timeout", 20000)
+    s.add(base)
+    cells = []
+    while True:
+        r = s.check()
+        res["queries"] += 1
+        if r == z3.unknown:
+            res["inconclusive"].append("cell enumeration unknown")
+            return None
+        if r == z3.unsat:
+            return cells
+        m = s.model()
+        cell = [a if z3.is_true(m.eval(a, model_completion=True)) else z3.Not(a) for a in kept]
+        cells.append(cell)
+        s.add(z3.Not(z3.And(cell)) if cell else z3.BoolVal(False))
+        if len(cells) > max_cells:
+            res["inconclusive"].append(f"more than {max_cells} cells")
+            return None
+
+
+def cell_law(res, hname, params, cell, okey=None):
+    """law of the harness outcome on one cell: ({key: prob term}, {key: outcome}, vars) or None if excluded"""
+    okey = okey or (lambda o: json.dumps(o, sort_keys=True))
+    law, outcomes, cvars = {}, {}, {}
+
+    def pre(ctx):
+        ctx.law_mode = True
+        for c in cell:
+            ctx.ex.assume(c)
+
+    for ctx, ex, outcome, status in engine.explore_raw(hname, params, pre=pre):
+        res["paths"] += 1
+        res["queries"] += ex.queries
+        res["solver_s"] += ex.solver_time
+        res["decisions"] += len(ex.script)
+        cvars.update(ctx.vars)
+        if status != "ok":
+            (res["harness_errors"] if status.startswith("harness") else res["inconclusive"]).append(status)
+            continue
+        if any(d[0] == "b" and d[2] == 2 for d in ex.decisions):
+            res["inconclusive"].append("a parameter comparison appeared inside a cell (cell split incomplete)")
+        if outcome is None or outcome.get("kind") == "excluded":
+            return None
+        k = okey(outcome)
+        outcomes[k] = outcome
+        p = lift(ctx.prob if ctx.prob is not None else 1)
+        law[k] = p if k not in law else law[k] + p
+    return law, outcomes, cvars
